@@ -378,3 +378,71 @@ Section Operator.
     - cbn [go_err_isnil negb]. factor_reports. cbn [goi app]. rewrite ?app_nil_r, ?if_andb. reflexivity.
   Qed.
 End Operator.
+
+(* ---------- RenamingSubject.Validate (v2/types.go): the local subject of an import against the subject it renames ----------
+   strconv.Atoi is an unknown function of its text, here the model's [atoi] ([o_atoi]); the function literal of the body
+   is a local function. *)
+Section Renaming.
+  Lemma ref_token_spec (tk : string) :
+    ref_token tk = if (go_slen tk <? 2)%Z then None
+                   else if (go_sbyte tk 0 =? 36)%Z then atoi (go_substr tk 1 (go_slen tk)) else None.
+  Proof.
+    unfold ref_token, go_slen. destruct tk as [|c r]; [reflexivity|]. destruct r as [|c2 r2]; [reflexivity|].
+    replace (Nat.ltb (String.length (String c (String c2 r2))) 2) with false by reflexivity.
+    replace (Z.of_nat (String.length (String c (String c2 r2))) <? 2)%Z with false
+      by (symmetry; apply Z.ltb_ge; cbn [String.length]; lia).
+    assert (Hsub : go_substr (String c (String c2 r2)) 1 (Z.of_nat (String.length (String c (String c2 r2)))) = String c2 r2).
+    { unfold go_substr. rewrite Nat2Z.id. change (Z.to_nat 1) with 1%nat. cbn [String.length Nat.sub substring].
+      f_equal. apply SrcSubject.substring_all. }
+    rewrite Hsub. unfold go_sbyte. cbn [Z.to_nat go_sbyte_nat].
+    destruct (Ascii.eqb_spec c "$"%char) as [->|Hne]; [reflexivity|].
+    assert (Hz : (Z.of_nat (nat_of_ascii c) =? 36)%Z = false).
+    { apply Z.eqb_neq. intros H. apply Hne. apply (f_equal Z.to_nat) in H. rewrite Nat2Z.id in H.
+      change (Z.to_nat 36) with (nat_of_ascii "$"%char) in H.
+      rewrite <- (ascii_nat_embedding c), <- (ascii_nat_embedding "$"%char). now f_equal. }
+    rewrite Hz. destruct c as [[] [] [] [] [] [] [] []]; try reflexivity. exfalso; apply Hne; reflexivity.
+  Qed.
+
+  Definition rnbody (fromCnt : Z) (_ : Z) (tk : string) (st : Z * list go_issue) : ctl (Z * list go_issue) (list go_issue) :=
+    let '(refCnt, vr) := st in
+    let refCnt := if (tk =? "*")%string then (refCnt + 1)%Z else refCnt in
+    if (go_slen tk <? 2)%Z then Cont (refCnt, vr)
+    else let '(vr, refCnt) :=
+           (if (go_sbyte tk 0 =? 36)%Z
+            then let '(idx, err) := o_atoi (go_substr tk 1 (go_slen tk)) in
+                 let '(vr, refCnt) :=
+                   (if go_err_isnil err
+                    then let '(vr, refCnt) := (if (idx >? fromCnt)%Z then (vr ++ [GoError], refCnt) else (vr, (refCnt + 1)%Z)) in (vr, refCnt)
+                    else (vr, refCnt)) in
+                 (vr, refCnt)
+            else (vr, refCnt)) in
+         Cont (refCnt, vr).
+  Lemma rnloop (fromCnt : Z) : forall (l : list string) (i : Z) (refCnt : Z) (vr : list go_issue),
+    go_range (R:=list go_issue) (rnbody fromCnt) i l (refCnt, vr)
+    = inl (snd (v_refs l fromCnt refCnt), vr ++ map goi (fst (v_refs l fromCnt refCnt))).
+  Proof.
+    induction l as [|tk l IH]; intros i refCnt vr; [cbn; now rewrite app_nil_r|].
+    cbn [go_range v_refs]. unfold rnbody at 1. cbv zeta. rewrite ref_token_spec.
+    destruct (go_slen tk <? 2)%Z; [rewrite IH; reflexivity|].
+    destruct (go_sbyte tk 0 =? 36)%Z; [|rewrite IH; reflexivity].
+    unfold o_atoi. destruct (atoi (go_substr tk 1 (go_slen tk))) as [idx|]; cbn [go_err_isnil]; [|rewrite IH; reflexivity].
+    rewrite Z.gtb_ltb. destruct (fromCnt <? idx)%Z.
+    - rewrite IH. destruct (v_refs l fromCnt (if (tk =? "*")%string then (refCnt + 1)%Z else refCnt)) as [is c0].
+      cbn [fst snd map goi]. rewrite <- app_assoc. reflexivity.
+    - rewrite IH. reflexivity.
+  Qed.
+
+  Lemma vc_renaming (s from : string) (vr : list go_issue) :
+    V2.RenamingSubject_Validate o_atoi s from vr = vr ++ map goi (v_renaming s from).
+  Proof.
+    unfold V2.RenamingSubject_Validate, v_renaming. cbv zeta. rewrite vc_subject.
+    change (V2.Subject_countTokenWildcards from) with (SrcSubject.V2.Subject_countTokenWildcards from).
+    rewrite SrcSubject.src_count_wild_tokens.
+    rewrite go_split_dot.
+    match goal with |- context [go_range ?B 0%Z (split dot s) (0%Z, ?v)] =>
+      change (go_range B 0%Z (split dot s) (0%Z, v)) with (go_range (R:=list go_issue) (rnbody (count_wild_tokens from)) 0%Z (split dot s) (0%Z, v)) end.
+    rewrite rnloop. cbv iota beta.
+    destruct (v_refs (split dot s) (count_wild_tokens from) 0) as [is c0]. cbn [fst snd].
+    unfold ends_gt. rewrite !map_app, !map_when. factor_reports. cbn [goi app]. rewrite ?app_nil_r. reflexivity.
+  Qed.
+End Renaming.
